@@ -76,6 +76,11 @@ class TreeGen:
                 if r.random() < 0.5:
                     return ("assign_raw", "l", r.choice(["S", "T"]))
                 return ("select_list", "l", self.cond(vars_), r.choice([("S", "T"), ("T", "S"), ("S", "{l}"), ("{l}", "T")]))
+            if self.lists and not self.shared and depth > 0 and r.random() < 0.08:
+                # a list that changes its length inside a region: cannot be done obliviously - the library must refuse it
+                # loudly (RuntimeError when the region closes), never hand back a list that differs from the native one
+                self.kinds.add("list-length-change-in-region")
+                return ("assign_raw", "l", r.choice(["{l} + [{a}]", "[{b}] + {l}", "{l} + [{c}, {a}]"]))
             if self.lists and r.random() < 0.35:
                 self.kinds.add("list-element-write")
                 return ("assign", r.choice(self.ELEMS), self.expr(vars_))
@@ -166,7 +171,7 @@ def render(tree, api):
                     rhs = "chk(%s)" % rhs
                 emit(ind, "%s = %s" % (("_.%s" % st[1]) if api else st[1], rhs))
             elif k == "assign_raw":
-                emit(ind, "%s = %s" % (("_.%s" % st[1]) if api else st[1], st[2]))
+                emit(ind, "%s = %s" % (("_.%s" % st[1]) if api else st[1], ex(st[2])))
             elif k == "select_list":
                 _, tgt, c, (tv, fv) = st
                 if api:
@@ -356,6 +361,11 @@ def worker(job):
                     R.count("both_raise")
                 R.case(cell="%s|raise" % kinds, key=key)
                 continue
+            if out.exc is not None and "list-length-change-in-region" in tg.kinds and isinstance(out.exc, RuntimeError) \
+                    and "lists of different length" in str(out.exc):
+                R.count("list_length_change_refused_loudly")
+                R.case(cell="%s|refused" % kinds, key=key)
+                continue
             if out.exc is not None:
                 R.case(cell="%s|api-raised" % kinds, key=key)
                 R.violation(classify_raise(out.exc, api_src), "block-API program raised %s: %s (the native twin completes)" % (
@@ -389,7 +399,8 @@ def worker(job):
             R.case(cell=["%s|%s" % (kinds, path)], key=key, nontrivial=ncmp > 0 and nsecret > 0)
             R.sample(dict(src=api_src, inputs=inputs, final={k: tns[k] for k in ("a", "b", "c")}), cap=4)
             if bad:
-                R.violation("final-value-differs", "variable %s: %s" % bad, **det)
+                R.violation("final-value-differs:list-length-change" if "list-length-change-in-region" in tg.kinds and bad[0] == "l" else "final-value-differs",
+                            "variable %s: %s" % bad, **det)
             snap = out.snap
             unsat = r1cs.unsatisfied(snap["constraints"], snap["values"], snap["p"])
             R.count("constraints_evaluated", len(snap["constraints"]))
